@@ -64,33 +64,35 @@ structure Keeps (k k' : Conn) : Prop where
   eos : k'.eos = k.eos
   winStart : k'.winStart = k.winStart
   winSize : k'.winSize = k.winSize
+  later : k'.later = k.later
+  done : k'.done = k.done
 
-theorem Keeps.refl (k : Conn) : Keeps k k := ⟨rfl, rfl, rfl, rfl, rfl, rfl, rfl, rfl, rfl, rfl, rfl, rfl, rfl, rfl⟩
+theorem Keeps.refl (k : Conn) : Keeps k k := ⟨rfl, rfl, rfl, rfl, rfl, rfl, rfl, rfl, rfl, rfl, rfl, rfl, rfl, rfl, rfl, rfl⟩
 
 theorem Keeps.trans {a b c : Conn} (h1 : Keeps a b) (h2 : Keeps b c) : Keeps a c :=
   ⟨h2.rbuf.trans h1.rbuf, h2.inbox.trans h1.inbox, h2.sent.trans h1.sent, h2.plan.trans h1.plan, h2.st.trans h1.st,
    h2.remaining.trans h1.remaining, h2.chunkSize.trans h1.chunkSize, h2.chunkOff.trans h1.chunkOff,
    h2.lastSeen.trans h1.lastSeen, h2.rwp.trans h1.rwp, h2.wpend.trans h1.wpend, h2.eos.trans h1.eos,
-   h2.winStart.trans h1.winStart, h2.winSize.trans h1.winSize⟩
+   h2.winStart.trans h1.winStart, h2.winSize.trans h1.winSize, h2.later.trans h1.later, h2.done.trans h1.done⟩
 
 theorem Keeps_doSuspend (g : Guards) (k : Conn) : Keeps k (k.doSuspend g).1 := by
-  unfold Conn.doSuspend; split <;> exact ⟨rfl, rfl, rfl, rfl, rfl, rfl, rfl, rfl, rfl, rfl, rfl, rfl, rfl, rfl⟩
+  unfold Conn.doSuspend; split <;> exact ⟨rfl, rfl, rfl, rfl, rfl, rfl, rfl, rfl, rfl, rfl, rfl, rfl, rfl, rfl, rfl, rfl⟩
 
 theorem Keeps_doResumeReq (k : Conn) : Keeps k k.doResumeReq :=
-  ⟨rfl, rfl, rfl, rfl, rfl, rfl, rfl, rfl, rfl, rfl, rfl, rfl, rfl, rfl⟩
+  ⟨rfl, rfl, rfl, rfl, rfl, rfl, rfl, rfl, rfl, rfl, rfl, rfl, rfl, rfl, rfl, rfl⟩
 
 theorem Keeps_suspendAct (g : Guards) (a : ActK) (k : Conn) : Keeps k (suspendAct g k a).1 := by
   simp only [suspendAct]
   split
-  · exact ⟨rfl, rfl, rfl, rfl, rfl, rfl, rfl, rfl, rfl, rfl, rfl, rfl, rfl, rfl⟩
+  · exact ⟨rfl, rfl, rfl, rfl, rfl, rfl, rfl, rfl, rfl, rfl, rfl, rfl, rfl, rfl, rfl, rfl⟩
   · cases a with
     | pre => exact (Keeps_doResumeReq k).trans (Keeps_doSuspend g k.doResumeReq)
-    | imm => exact (Keeps_doSuspend g k).trans ⟨rfl, rfl, rfl, rfl, rfl, rfl, rfl, rfl, rfl, rfl, rfl, rfl, rfl, rfl⟩
+    | imm => exact (Keeps_doSuspend g k).trans ⟨rfl, rfl, rfl, rfl, rfl, rfl, rfl, rfl, rfl, rfl, rfl, rfl, rfl, rfl, rfl, rfl⟩
     | manual => exact Keeps_doSuspend g k
     | delay n =>
       simp only []
       split
-      · exact (Keeps_doSuspend g k).trans ⟨rfl, rfl, rfl, rfl, rfl, rfl, rfl, rfl, rfl, rfl, rfl, rfl, rfl, rfl⟩
+      · exact (Keeps_doSuspend g k).trans ⟨rfl, rfl, rfl, rfl, rfl, rfl, rfl, rfl, rfl, rfl, rfl, rfl, rfl, rfl, rfl, rfl⟩
       · exact Keeps_doSuspend g k
 
 theorem Keeps_optAct (g : Guards) (a : Option ActK) (k : Conn) : Keeps k (optAct g k a).1 := by
@@ -166,7 +168,7 @@ theorem callUpload_spec (g : Guards) (k : Conn) (off : List UInt8) :
     Keeps k (callUpload g k off).1 ∧ upBytes (callUpload g k off).2.1 = off.take (callUpload g k off).2.2 ∧
     wireBytes (callUpload g k off).2.1 = [] ∧ (callUpload g k off).2.2 ≤ off.length := by
   simp only [callUpload]
-  have hk : Keeps k { k with nupload := k.nupload + 1 } := ⟨rfl, rfl, rfl, rfl, rfl, rfl, rfl, rfl, rfl, rfl, rfl, rfl, rfl, rfl⟩
+  have hk : Keeps k { k with nupload := k.nupload + 1 } := ⟨rfl, rfl, rfl, rfl, rfl, rfl, rfl, rfl, rfl, rfl, rfl, rfl, rfl, rfl, rfl, rfl⟩
   have he := optAct_evs g (lookupAct k.nupload k.plan.us) { k with nupload := k.nupload + 1 }
   refine ⟨hk.trans (Keeps_optAct g _ _), ?_, ?_, takeOf_le _ _ _⟩
   · simp [upBytes, he.1]
@@ -179,7 +181,7 @@ theorem upBytes_handler_first (c : Prop) [Decidable c] (o : List UInt8) (t : Nat
 theorem callFirst_spec (g : Guards) (k : Conn) :
     Keeps k (callFirst g k).1 ∧ upBytes (callFirst g k).2 = [] ∧ wireBytes (callFirst g k).2 = [] := by
   simp only [callFirst]
-  have hk : Keeps k { k with nfirst := k.nfirst + 1 } := ⟨rfl, rfl, rfl, rfl, rfl, rfl, rfl, rfl, rfl, rfl, rfl, rfl, rfl, rfl⟩
+  have hk : Keeps k { k with nfirst := k.nfirst + 1 } := ⟨rfl, rfl, rfl, rfl, rfl, rfl, rfl, rfl, rfl, rfl, rfl, rfl, rfl, rfl, rfl, rfl⟩
   have he := optAct_evs g k.plan.fs[k.nfirst]? { k with nfirst := k.nfirst + 1 }
   refine ⟨hk.trans (Keeps_optAct g _ _), ?_, by simp [wireBytes, he.2]⟩
   rw [upBytes_handler_first]; exact he.1
@@ -191,15 +193,15 @@ theorem callFinal_spec (g : Guards) (k : Conn) :
   · exact ⟨Keeps.refl k, rfl, rfl⟩
   · split
     · next a _ =>
-      have hk : Keeps k { k with nfinal := k.nfinal + 1 } := ⟨rfl, rfl, rfl, rfl, rfl, rfl, rfl, rfl, rfl, rfl, rfl, rfl, rfl, rfl⟩
+      have hk : Keeps k { k with nfinal := k.nfinal + 1 } := ⟨rfl, rfl, rfl, rfl, rfl, rfl, rfl, rfl, rfl, rfl, rfl, rfl, rfl, rfl, rfl, rfl⟩
       have he := suspendAct_evs g a { k with nfinal := k.nfinal + 1 }
       exact ⟨hk.trans (Keeps_suspendAct g _ _), by simp [upBytes, he.1], by simp [wireBytes, he.2]⟩
-    · exact ⟨⟨rfl, rfl, rfl, rfl, rfl, rfl, rfl, rfl, rfl, rfl, rfl, rfl, rfl, rfl⟩, rfl, rfl⟩
+    · exact ⟨⟨rfl, rfl, rfl, rfl, rfl, rfl, rfl, rfl, rfl, rfl, rfl, rfl, rfl, rfl, rfl, rfl⟩, rfl, rfl⟩
 
 theorem callReader_spec (g : Guards) (mx : Nat) (k : Conn) :
     Keeps k (callReader g k mx).1 ∧ upBytes (callReader g k mx).2.1 = [] ∧ wireBytes (callReader g k mx).2.1 = [] := by
   simp only [callReader]
-  have hk : Keeps k { k with nreader := k.nreader + 1 } := ⟨rfl, rfl, rfl, rfl, rfl, rfl, rfl, rfl, rfl, rfl, rfl, rfl, rfl, rfl⟩
+  have hk : Keeps k { k with nreader := k.nreader + 1 } := ⟨rfl, rfl, rfl, rfl, rfl, rfl, rfl, rfl, rfl, rfl, rfl, rfl, rfl, rfl, rfl, rfl⟩
   have he := optAct_evs g (lookupAct k.nreader k.plan.rs) { k with nreader := k.nreader + 1 }
   split
   · exact ⟨hk.trans (Keeps_optAct g _ _), by simp [upBytes, he.1], by simp [wireBytes, he.2]⟩
@@ -305,6 +307,10 @@ theorem tryReadyNormal_keeps (g : Guards) (k : Conn) :
 theorem DU_of_same {k k' : Conn} {evs} (h1 : k'.rbuf = k.rbuf) (h2 : k'.inbox = k.inbox) (h3 : k'.sent = k.sent)
     (he : upBytes evs = []) : DU k evs k' := ⟨by rw [he, h1, h2]; rfl, h3⟩
 
+theorem nextRequest_same (k : Conn) : (nextRequest k).1.rbuf = k.rbuf ∧ (nextRequest k).1.inbox = k.inbox ∧
+    (nextRequest k).1.sent = k.sent ∧ upBytes (nextRequest k).2.1 = [] ∧ wireBytes (nextRequest k).2.1 = [] := by
+  unfold nextRequest; split <;> exact ⟨rfl, rfl, rfl, rfl, rfl⟩
+
 theorem DU_idleStep (g : Guards) (k : Conn) : DU k (idleStep g k).2.1 (idleStep g k).1 := by
   unfold idleStep
   split
@@ -349,7 +355,8 @@ theorem DU_idleStep (g : Guards) (k : Conn) : DU k (idleStep g k).2.1 (idleStep 
   · exact DU_rel.refl k
   · exact DU_of_same rfl rfl rfl rfl
   · exact DU_rel.refl k
-  · exact DU_of_same rfl rfl rfl rfl
+  · have sp := nextRequest_same k
+    exact DU_of_same sp.1 sp.2.1 sp.2.2.1 sp.2.2.2.1
   · exact DU_rel.refl k
 
 theorem updateEli_same (g : Guards) (k : Conn) : (updateEli g k).rbuf = k.rbuf ∧ (updateEli g k).inbox = k.inbox ∧
@@ -433,14 +440,14 @@ theorem KD_nil_of_conn (d d' : Daemon) (h : d'.conn = d.conn) : KD d [] d' := by
   intro c; rw [h]; exact ⟨Keeps.refl _, rfl, rfl⟩
 
 theorem KD_resumeReq (d : Daemon) (a : Nat) : KD d (resumeReq d a).2 (resumeReq d a).1 :=
-  KD_one d _ a _ [.resumeReq] rfl ⟨rfl, rfl, rfl, rfl, rfl, rfl, rfl, rfl, rfl, rfl, rfl, rfl, rfl, rfl⟩ rfl rfl
+  KD_one d _ a _ [.resumeReq] rfl ⟨rfl, rfl, rfl, rfl, rfl, rfl, rfl, rfl, rfl, rfl, rfl, rfl, rfl, rfl, rfl, rfl⟩ rfl rfl
 
 theorem KD_moveBack (g : Guards) (d : Daemon) (a : Nat) : KD d [(a, .resumed)] (moveBack g d a) := by
   have : [(a, CEv.resumed)] = tag a [.resumed] := rfl
   rw [this]
   refine KD_one d _ a _ [.resumed] rfl ?_ rfl rfl
   simp only []
-  split <;> exact ⟨rfl, rfl, rfl, rfl, rfl, rfl, rfl, rfl, rfl, rfl, rfl, rfl, rfl, rfl⟩
+  split <;> exact ⟨rfl, rfl, rfl, rfl, rfl, rfl, rfl, rfl, rfl, rfl, rfl, rfl, rfl, rfl, rfl, rfl⟩
 
 theorem KD_resumeScan (g : Guards) : ∀ (l : List Nat) (d : Daemon), KD d (resumeScan g l d).2 (resumeScan g l d).1 := by
   intro l
@@ -471,14 +478,14 @@ theorem KD_timerScan : ∀ (l : List Nat) (d : Daemon), KD d (timerScan l d).2 (
     split
     · have h1 : KD d [] { d with conn := setConn d.conn a { (d.conn a) with timer := none } } := by
         have := KD_one d { d with conn := setConn d.conn a { (d.conn a) with timer := none } } a _ [] rfl
-          ⟨rfl, rfl, rfl, rfl, rfl, rfl, rfl, rfl, rfl, rfl, rfl, rfl, rfl, rfl⟩ rfl rfl
+          ⟨rfl, rfl, rfl, rfl, rfl, rfl, rfl, rfl, rfl, rfl, rfl, rfl, rfl, rfl, rfl, rfl⟩ rfl rfl
         simpa [tag] using this
       have := KD_rel.trans _ _ _ _ _ (KD_rel.trans _ _ _ _ _ h1 (KD_resumeReq _ a)) (ih _)
       simpa using this
     · next n _ =>
       have h1 : KD d [] { d with conn := setConn d.conn a { (d.conn a) with timer := some n } } := by
         have := KD_one d { d with conn := setConn d.conn a { (d.conn a) with timer := some n } } a _ [] rfl
-          ⟨rfl, rfl, rfl, rfl, rfl, rfl, rfl, rfl, rfl, rfl, rfl, rfl, rfl, rfl⟩ rfl rfl
+          ⟨rfl, rfl, rfl, rfl, rfl, rfl, rfl, rfl, rfl, rfl, rfl, rfl, rfl, rfl, rfl, rfl⟩ rfl rfl
         simpa [tag] using this
       have := KD_rel.trans _ _ _ _ _ h1 (ih _)
       simpa using this
@@ -496,7 +503,7 @@ theorem KD_processNew : ∀ (l : List Nat) (d : Daemon), KD d (processNew l d).2
                  active := a :: d.active, normalTO := a :: d.normalTO } := by
       have : [(a, CEv.connStart)] = tag a [.connStart] := rfl
       rw [this]
-      exact KD_one d _ a _ [.connStart] rfl ⟨rfl, rfl, rfl, rfl, rfl, rfl, rfl, rfl, rfl, rfl, rfl, rfl, rfl, rfl⟩ rfl rfl
+      exact KD_one d _ a _ [.connStart] rfl ⟨rfl, rfl, rfl, rfl, rfl, rfl, rfl, rfl, rfl, rfl, rfl, rfl, rfl, rfl, rfl, rfl⟩ rfl rfl
     exact KD_rel.trans _ _ _ _ _ h1 (ih _)
 
 theorem KD_newPhase : DSat KD newPhase := by
@@ -506,7 +513,7 @@ theorem KD_newPhase : DSat KD newPhase := by
   simpa using this
 
 theorem epollMark_keeps (k : Conn) (i o : Bool) : Keeps k (epollMark k i o) := by
-  cases i <;> cases o <;> exact ⟨rfl, rfl, rfl, rfl, rfl, rfl, rfl, rfl, rfl, rfl, rfl, rfl, rfl, rfl⟩
+  cases i <;> cases o <;> exact ⟨rfl, rfl, rfl, rfl, rfl, rfl, rfl, rfl, rfl, rfl, rfl, rfl, rfl, rfl, rfl, rfl⟩
 
 theorem KD_epollEvents : ∀ (l : List (Nat × Bool × Bool)) (d : Daemon), KD d [] (epollEvents l d) := by
   intro l
@@ -528,7 +535,7 @@ theorem KD_ereadyPost (d : Daemon) (a : Nat) : KD d [] (ereadyPost d a) := by
   split
   · have := KD_one d (sync { d with conn := setConn d.conn a { (d.conn a) with inEready := false } } a) a
       { (d.conn a) with inEready := false } [] (by rw [sync_conn])
-      ⟨rfl, rfl, rfl, rfl, rfl, rfl, rfl, rfl, rfl, rfl, rfl, rfl, rfl, rfl⟩ rfl rfl
+      ⟨rfl, rfl, rfl, rfl, rfl, rfl, rfl, rfl, rfl, rfl, rfl, rfl, rfl, rfl, rfl, rfl⟩ rfl rfl
     simpa [tag] using this
   · exact KD_rel.refl d
 
@@ -557,7 +564,7 @@ theorem Lift_turnWith {R} (hR : TurnRel R) (hF : FlagOK R) (f : Conn → Conn ×
   · subst hc
     simp only [setConn_same, proj_tag_same]
     have h0 : R (d.conn c) [] (clearDres (d.conn c)) :=
-      hF _ _ _ ⟨rfl, rfl, rfl, rfl, rfl, rfl, rfl, rfl, rfl, rfl, rfl, rfl, rfl, rfl⟩ rfl rfl
+      hF _ _ _ ⟨rfl, rfl, rfl, rfl, rfl, rfl, rfl, rfl, rfl, rfl, rfl, rfl, rfl, rfl, rfl, rfl⟩ rfl rfl
     have := hR.trans _ _ _ _ _ h0 (hf (clearDres (d.conn c)))
     simpa using this
   · rw [setConn_ne _ _ hc, proj_tag_ne (Ne.symm hc)]; exact hR.refl _
@@ -670,7 +677,7 @@ theorem Lift_step {R : Conn → List CEv → Conn → Prop} (hR : TurnRel R) (hF
     simp only [step]
     have h1 : KD d [] { d with conn := setConn d.conn a { (d.conn a) with timer := none } } := by
       have := KD_one d { d with conn := setConn d.conn a { (d.conn a) with timer := none } } a _ [] rfl
-        ⟨rfl, rfl, rfl, rfl, rfl, rfl, rfl, rfl, rfl, rfl, rfl, rfl, rfl, rfl⟩ rfl rfl
+        ⟨rfl, rfl, rfl, rfl, rfl, rfl, rfl, rfl, rfl, rfl, rfl, rfl, rfl, rfl, rfl, rfl⟩ rfl rfl
       simpa [tag] using this
     have := KD_rel.trans _ _ _ _ _ h1 (KD_resumeReq _ a)
     exact Lift_of_KD hF (by simpa using this)
@@ -743,9 +750,20 @@ theorem patRange_append (rid a n m : Nat) : patRange rid a n ++ patRange rid (a 
     simp only [patRange, List.cons_append]
     rw [ih (a + 1)]
 
-/-- invariant of the reply side: `w` = body bytes sent so far -/
+/-- the complete reply bodies of a list of requests, in order -/
+def bodies : List Plan → List UInt8
+  | [] => []
+  | p :: r => patRange p.rid 0 p.size ++ bodies r
+
+theorem bodies_append (a b : List Plan) : bodies (a ++ b) = bodies a ++ bodies b := by
+  induction a with
+  | nil => rfl
+  | cons p r ih => simp [bodies, ih]
+
+/-- invariant of the reply side: `w` = body bytes sent so far on this connection: the complete
+    bodies of the requests already served, then the first `rwp` bytes of the current reply -/
 structure RInv (k : Conn) (w : List UInt8) : Prop where
-  wire : w ++ k.wpend = patRange k.plan.rid 0 k.rwp
+  wire : w ++ k.wpend = bodies k.done ++ patRange k.plan.rid 0 k.rwp
   le : k.rwp ≤ k.plan.size
   win : k.winStart + k.winSize ≤ k.plan.size
   ready : k.st ≠ .bodyReady → k.wpend = []
@@ -771,12 +789,13 @@ structure RKeeps (k k' : Conn) : Prop where
   eos : k'.eos = k.eos
   winStart : k'.winStart = k.winStart
   winSize : k'.winSize = k.winSize
+  done : k'.done = k.done
 
-theorem Keeps.toR {k k' : Conn} (h : Keeps k k') : RKeeps k k' := ⟨h.plan, h.rwp, h.wpend, h.eos, h.winStart, h.winSize⟩
-theorem RKeeps.refl (k : Conn) : RKeeps k k := ⟨rfl, rfl, rfl, rfl, rfl, rfl⟩
+theorem Keeps.toR {k k' : Conn} (h : Keeps k k') : RKeeps k k' := ⟨h.plan, h.rwp, h.wpend, h.eos, h.winStart, h.winSize, h.done⟩
+theorem RKeeps.refl (k : Conn) : RKeeps k k := ⟨rfl, rfl, rfl, rfl, rfl, rfl, rfl⟩
 theorem RKeeps.trans {a b c : Conn} (h1 : RKeeps a b) (h2 : RKeeps b c) : RKeeps a c :=
   ⟨h2.plan.trans h1.plan, h2.rwp.trans h1.rwp, h2.wpend.trans h1.wpend, h2.eos.trans h1.eos,
-   h2.winStart.trans h1.winStart, h2.winSize.trans h1.winSize⟩
+   h2.winStart.trans h1.winStart, h2.winSize.trans h1.winSize, h2.done.trans h1.done⟩
 
 /-- states in which the reply has not reached the body yet, or is waiting for the reader -/
 def St.early : St → Bool
@@ -790,7 +809,7 @@ theorem RW_of_rkeeps {k k' : Conn} {evs} (h : RKeeps k k') (he : wireBytes evs =
   have hch : k'.chunkedReply = k.chunkedReply := by unfold Conn.chunkedReply; rw [h.plan]
   rw [he, List.append_nil]
   constructor
-  · rw [h.wpend, h.plan, h.rwp]; exact hw.wire
+  · rw [h.wpend, h.plan, h.rwp, h.done]; exact hw.wire
   · rw [h.plan, h.rwp]; exact hw.le
   · rw [h.plan, h.winStart, h.winSize]; exact hw.win
   · intro hne
@@ -823,13 +842,13 @@ theorem RKS_rel : TurnRel RKS where
 theorem RKS_of_keeps {k k' : Conn} {evs} (h : Keeps k k') (he : wireBytes evs = []) : RKS k evs k' := ⟨h.toR, h.st, he⟩
 
 theorem RKS_faultIter (k : Conn) (w : String) : RKS k (faultIter k w).2.1 (faultIter k w).1 :=
-  ⟨⟨rfl, rfl, rfl, rfl, rfl, rfl⟩, rfl, rfl⟩
+  ⟨⟨rfl, rfl, rfl, rfl, rfl, rfl, rfl⟩, rfl, rfl⟩
 
 theorem RKS_chunkSizeLine (k : Conn) : RKS k (chunkSizeLine k).2.1 (chunkSizeLine k).1 := by
   unfold chunkSizeLine
   split
-  · exact ⟨⟨rfl, rfl, rfl, rfl, rfl, rfl⟩, rfl, rfl⟩
-  · exact ⟨⟨rfl, rfl, rfl, rfl, rfl, rfl⟩, rfl, rfl⟩
+  · exact ⟨⟨rfl, rfl, rfl, rfl, rfl, rfl, rfl⟩, rfl, rfl⟩
+  · exact ⟨⟨rfl, rfl, rfl, rfl, rfl, rfl, rfl⟩, rfl, rfl⟩
   · exact RKS_rel.refl k
   · exact RKS_faultIter _ _
 
@@ -837,7 +856,7 @@ theorem RKS_chunkEnd (k : Conn) : RKS k (chunkEnd k).2.1 (chunkEnd k).1 := by
   unfold chunkEnd
   split
   · next r h =>
-    have h1 : RKS k [] { k with rbuf := r, chunkOff := 0, chunkSize := 0 } := ⟨⟨rfl, rfl, rfl, rfl, rfl, rfl⟩, rfl, rfl⟩
+    have h1 : RKS k [] { k with rbuf := r, chunkOff := 0, chunkSize := 0 } := ⟨⟨rfl, rfl, rfl, rfl, rfl, rfl, rfl⟩, rfl, rfl⟩
     simp only []
     split
     · exact h1
@@ -854,7 +873,7 @@ theorem RKS_chunkMid (g : Guards) (k : Conn) : RKS k (chunkMid g k).2.1 (chunkMi
     · exact RKS_rel.refl k
     · exact RKS_faultIter _ _
   · have sp := callUpload_spec g k ((leadBytes k.rbuf).take (min (k.chunkSize - k.chunkOff) (leadBytes k.rbuf).length))
-    exact ⟨⟨sp.1.plan, sp.1.rwp, sp.1.wpend, sp.1.eos, sp.1.winStart, sp.1.winSize⟩, sp.1.st, sp.2.2.1⟩
+    exact ⟨⟨sp.1.plan, sp.1.rwp, sp.1.wpend, sp.1.eos, sp.1.winStart, sp.1.winSize, sp.1.done⟩, sp.1.st, sp.2.2.1⟩
 
 theorem RKS_chunkIter (g : Guards) (k : Conn) : RKS k (chunkIter g k).2.1 (chunkIter g k).1 := by
   unfold chunkIter
@@ -868,12 +887,12 @@ theorem RKS_procBody (g : Guards) : Sat RKS (procBody g) := by
   intro k
   unfold procBody
   split
-  · exact sat_chunkLoop RKS_rel (fun k w => ⟨⟨rfl, rfl, rfl, rfl, rfl, rfl⟩, rfl, rfl⟩) (RKS_chunkIter g) _ k
+  · exact sat_chunkLoop RKS_rel (fun k w => ⟨⟨rfl, rfl, rfl, rfl, rfl, rfl, rfl⟩, rfl, rfl⟩) (RKS_chunkIter g) _ k
   · simp only [procBodyCL]
     split
     · exact RKS_rel.refl k
     · have sp := callUpload_spec g k ((leadBytes k.rbuf).take (min k.remaining (leadBytes k.rbuf).length))
-      exact ⟨⟨sp.1.plan, sp.1.rwp, sp.1.wpend, sp.1.eos, sp.1.winStart, sp.1.winSize⟩, sp.1.st, sp.2.2.1⟩
+      exact ⟨⟨sp.1.plan, sp.1.rwp, sp.1.wpend, sp.1.eos, sp.1.winStart, sp.1.winSize, sp.1.done⟩, sp.1.st, sp.2.2.1⟩
 
 /-- what the content reader returns -/
 theorem callReader_ret (g : Guards) (mx : Nat) (k : Conn) :
@@ -916,8 +935,8 @@ theorem RW_readyChunked (g : Guards) (k : Conn) (hst : k.st = .bodyUnready) (hch
       have hsz : k.rwp = k.plan.size := Nat.le_antisymm hw.le (rt.1 hr)
       rw [hwb, List.append_nil]
       refine ⟨?_, ?_, ?_, ?_, ?_, ?_, ?_, ?_⟩
-      · show w ++ r.1.wpend = patRange r.1.plan.rid 0 r.1.rwp
-        rw [hk.wpend, hk.plan, hk.rwp]; exact hw.wire
+      · show w ++ r.1.wpend = bodies r.1.done ++ patRange r.1.plan.rid 0 r.1.rwp
+        rw [hk.wpend, hk.plan, hk.rwp, hk.done]; exact hw.wire
       · show r.1.rwp ≤ r.1.plan.size
         rw [hk.plan, hk.rwp]; exact hw.le
       · show r.1.winStart + r.1.winSize ≤ r.1.plan.size
@@ -935,12 +954,13 @@ theorem RW_readyChunked (g : Guards) (k : Conn) (hst : k.st = .bodyUnready) (hch
       have hle := hw.le
       rw [hwb, List.append_nil]
       refine ⟨?_, ?_, ?_, ?_, ?_, ?_, ?_, ?_⟩
-      · show w ++ patRange k.plan.rid k.rwp n = patRange r.1.plan.rid 0 (k.rwp + n)
+      · show w ++ patRange k.plan.rid k.rwp n = bodies r.1.done ++ patRange r.1.plan.rid 0 (k.rwp + n)
         have := hw.wire
         rw [hwp, List.append_nil] at this
-        rw [this, hk.plan]
+        rw [this, hk.plan, hk.done, List.append_assoc]
         have := patRange_append k.plan.rid 0 k.rwp n
-        simpa using this
+        simp only [Nat.zero_add] at this
+        rw [this]
       · show k.rwp + n ≤ r.1.plan.size
         rw [hk.plan]; omega
       · show r.1.winStart + r.1.winSize ≤ r.1.plan.size
@@ -982,15 +1002,15 @@ theorem RW_tryReadyNormal (g : Guards) (k : Conn) (hch : k.chunkedReply = false)
       · refine ⟨?_, Or.inl hk.st, hk.plan, hk.rwp⟩
         have h1 : RW k r.2.1 r.1 := RW_of_rkeeps hk.toR hwb (Or.inl hk.st)
         have h2 : RW r.1 [.fault "end of stream from a known-size reader"] (r.1.setFault "end of stream from a known-size reader").1 :=
-          RW_of_rkeeps ⟨rfl, rfl, rfl, rfl, rfl, rfl⟩ rfl (Or.inl rfl)
+          RW_of_rkeeps ⟨rfl, rfl, rfl, rfl, rfl, rfl, rfl⟩ rfl (Or.inl rfl)
         exact RW_rel.trans _ _ _ _ _ h1 h2
       · refine ⟨?_, Or.inr rfl, hk.plan, hk.rwp⟩
         intro w hw
         have hwp : k.wpend = [] := hw.known hch
         rw [hwb, List.append_nil]
         refine ⟨?_, ?_, ?_, ?_, ?_, ?_, ?_, ?_⟩
-        · show w ++ r.1.wpend = patRange r.1.plan.rid 0 r.1.rwp
-          rw [hk.wpend, hk.plan, hk.rwp]; exact hw.wire
+        · show w ++ r.1.wpend = bodies r.1.done ++ patRange r.1.plan.rid 0 r.1.rwp
+          rw [hk.wpend, hk.plan, hk.rwp, hk.done]; exact hw.wire
         · show r.1.rwp ≤ r.1.plan.size
           rw [hk.plan, hk.rwp]; exact hw.le
         · show k.rwp + 0 ≤ r.1.plan.size
@@ -1009,8 +1029,8 @@ theorem RW_tryReadyNormal (g : Guards) (k : Conn) (hch : k.chunkedReply = false)
         have hle := hw.le
         rw [hwb, List.append_nil]
         refine ⟨?_, ?_, ?_, ?_, ?_, ?_, ?_, ?_⟩
-        · show w ++ r.1.wpend = patRange r.1.plan.rid 0 r.1.rwp
-          rw [hk.wpend, hk.plan, hk.rwp]; exact hw.wire
+        · show w ++ r.1.wpend = bodies r.1.done ++ patRange r.1.plan.rid 0 r.1.rwp
+          rw [hk.wpend, hk.plan, hk.rwp, hk.done]; exact hw.wire
         · show r.1.rwp ≤ r.1.plan.size
           rw [hk.plan, hk.rwp]; exact hw.le
         · show k.rwp + n ≤ r.1.plan.size
@@ -1047,12 +1067,13 @@ theorem RW_writeBodyKnown (g : Guards) (k : Conn) (hch : k.chunkedReply = false)
         rw [← List.append_assoc]
         refine ⟨?_, ?_, ?_, ?_, ?_, ?_, ?_, ?_⟩
         · show (w ++ wireBytes r.2.1 ++ patRange r.1.plan.rid r.1.rwp (r.1.winStart + r.1.winSize - r.1.rwp)) ++ r.1.wpend
-            = patRange r.1.plan.rid 0 (r.1.rwp + (r.1.winStart + r.1.winSize - r.1.rwp))
+            = bodies r.1.done ++ patRange r.1.plan.rid 0 (r.1.rwp + (r.1.winStart + r.1.winSize - r.1.rwp))
           have := h1.wire
           rw [hwp, List.append_nil] at this ⊢
-          rw [this]
+          rw [this, List.append_assoc]
           have := patRange_append r.1.plan.rid 0 r.1.rwp (r.1.winStart + r.1.winSize - r.1.rwp)
-          simpa using this
+          simp only [Nat.zero_add] at this
+          rw [this]
         · show r.1.rwp + (r.1.winStart + r.1.winSize - r.1.rwp) ≤ r.1.plan.size
           omega
         · exact hwin
@@ -1090,7 +1111,7 @@ theorem RW_handleWrite (g : Guards) : Sat RW (handleWrite g) := by
   · exact RW_rel.refl k
   · split
     · next hst =>
-      exact RW_of_rkeeps ⟨rfl, rfl, rfl, rfl, rfl, rfl⟩ rfl (Or.inr ⟨by rw [hst]; simp, rfl⟩)
+      exact RW_of_rkeeps ⟨rfl, rfl, rfl, rfl, rfl, rfl, rfl⟩ rfl (Or.inr ⟨by rw [hst]; simp, rfl⟩)
     · next hst =>
       split
       · intro w hw
@@ -1108,19 +1129,40 @@ theorem RW_handleWrite (g : Guards) : Sat RW (handleWrite g) := by
         by intro hx; rcases hx with hx | hx <;> exact absurd hx (by simp), fun _ => hw.eosv he⟩
     · exact RW_rel.refl k
 
+/-- the request boundary: the reply just completed joins `done`, the next one starts at position 0 -/
+theorem RW_nextRequest (k : Conn) (hst : k.st = .replySent) : RW k (nextRequest k).2.1 (nextRequest k).1 := by
+  intro w hw
+  have hwp : k.wpend = [] := hw.ready (by rw [hst]; simp)
+  have hdone : k.rwp = k.plan.size := hw.done (Or.inl hst)
+  unfold nextRequest
+  split
+  · simp only [wireBytes, List.append_nil]
+    exact ⟨hw.wire, hw.le, hw.win, fun _ => hwp, fun _ => hwp, hw.eosv,
+      by intro hx; rcases hx with hx | hx <;> exact absurd hx (by simp), fun _ => hdone⟩
+  · next p ps _ =>
+    simp only [wireBytes, List.append_nil]
+    refine ⟨?_, Nat.zero_le _, Nat.zero_le _, fun _ => rfl, fun _ => rfl, by simp,
+      by intro hx; rcases hx with hx | hx <;> exact absurd hx (by simp),
+      by intro hx; rcases hx with hx | hx <;> exact absurd hx (by simp)⟩
+    show w ++ [] = bodies (k.done ++ [k.plan]) ++ patRange p.rid 0 0
+    have := hw.wire
+    rw [hwp, hdone] at this
+    rw [this, bodies_append]
+    simp [bodies, patRange]
+
 theorem RW_idleStep (g : Guards) (k : Conn) : RW k (idleStep g k).2.1 (idleStep g k).1 := by
   unfold idleStep
   split
   · next hst =>
     unfold stRecvHead; split
-    · exact RW_of_rkeeps ⟨rfl, rfl, rfl, rfl, rfl, rfl⟩ rfl (Or.inr ⟨by rw [hst]; simp, rfl⟩)
+    · exact RW_of_rkeeps ⟨rfl, rfl, rfl, rfl, rfl, rfl, rfl⟩ rfl (Or.inr ⟨by rw [hst]; simp, rfl⟩)
     · exact RW_rel.refl k
   · next hst =>
     unfold stHdrProcessed; simp only []
     have sp := callFirst_spec g k
     split
     · exact RW_of_rkeeps sp.1.toR sp.2.2 (Or.inl sp.1.st)
-    · refine RW_of_rkeeps ⟨sp.1.plan, sp.1.rwp, sp.1.wpend, sp.1.eos, sp.1.winStart, sp.1.winSize⟩ sp.2.2
+    · refine RW_of_rkeeps ⟨sp.1.plan, sp.1.rwp, sp.1.wpend, sp.1.eos, sp.1.winStart, sp.1.winSize, sp.1.done⟩ sp.2.2
         (Or.inr ⟨by rw [hst]; simp, ?_⟩)
       show (if k.plan.noBody = true then St.fullReq else St.bodyRecv).early = true
       split <;> rfl
@@ -1133,26 +1175,26 @@ theorem RW_idleStep (g : Guards) (k : Conn) : RW k (idleStep g k).2.1 (idleStep 
       · exact RKS_procBody g k
     generalize (if k.rbuf.isEmpty = true then (k, []) else procBody g k) = r at h ⊢
     split
-    · exact RW_of_rkeeps ⟨h.1.plan, h.1.rwp, h.1.wpend, h.1.eos, h.1.winStart, h.1.winSize⟩ h.2.2
+    · exact RW_of_rkeeps ⟨h.1.plan, h.1.rwp, h.1.wpend, h.1.eos, h.1.winStart, h.1.winSize, h.1.done⟩ h.2.2
         (Or.inr ⟨by rw [hst]; simp, rfl⟩)
     · exact RW_of_rkeeps h.1 h.2.2 (Or.inl h.2.1)
   · next hst =>
-    refine RW_of_rkeeps ⟨rfl, rfl, rfl, rfl, rfl, rfl⟩ rfl (Or.inr ⟨by rw [hst]; simp, ?_⟩)
+    refine RW_of_rkeeps ⟨rfl, rfl, rfl, rfl, rfl, rfl, rfl⟩ rfl (Or.inr ⟨by rw [hst]; simp, ?_⟩)
     show (if k.chunkedUp = true then St.footersRecv else St.fullReq).early = true
     split <;> rfl
   · next hst =>
     unfold stFootersRecv; split
-    · exact RW_of_rkeeps ⟨rfl, rfl, rfl, rfl, rfl, rfl⟩ rfl (Or.inr ⟨by rw [hst]; simp, rfl⟩)
+    · exact RW_of_rkeeps ⟨rfl, rfl, rfl, rfl, rfl, rfl, rfl⟩ rfl (Or.inr ⟨by rw [hst]; simp, rfl⟩)
     · exact RW_rel.refl k
   · next hst =>
     unfold stFullReq; simp only []
     have sp := callFinal_spec g k
     split
-    · exact RW_of_rkeeps ⟨sp.1.plan, sp.1.rwp, sp.1.wpend, sp.1.eos, sp.1.winStart, sp.1.winSize⟩ sp.2.2
+    · exact RW_of_rkeeps ⟨sp.1.plan, sp.1.rwp, sp.1.wpend, sp.1.eos, sp.1.winStart, sp.1.winSize, sp.1.done⟩ sp.2.2
         (Or.inr ⟨by rw [hst]; simp, rfl⟩)
     · exact RW_of_rkeeps sp.1.toR sp.2.2 (Or.inl sp.1.st)
   · exact RW_rel.refl k
-  · next hst => exact RW_of_rkeeps ⟨rfl, rfl, rfl, rfl, rfl, rfl⟩ rfl (Or.inr ⟨by rw [hst]; simp, rfl⟩)
+  · next hst => exact RW_of_rkeeps ⟨rfl, rfl, rfl, rfl, rfl, rfl, rfl⟩ rfl (Or.inr ⟨by rw [hst]; simp, rfl⟩)
   · next hst =>
     unfold stBodyUnready
     split
@@ -1191,22 +1233,17 @@ theorem RW_idleStep (g : Guards) (k : Conn) : RW k (idleStep g k).2.1 (idleStep 
     exact ⟨hw.wire, hw.le, hw.win, fun _ => hwp, fun _ => hwp, hw.eosv, fun _ => he,
       by intro hx; rcases hx with hx | hx <;> exact absurd hx (by simp)⟩
   · exact RW_rel.refl k
-  · next hst =>
-    intro w hw
-    have hwp : k.wpend = [] := hw.ready (by rw [hst]; simp)
-    simp only [wireBytes, List.append_nil]
-    exact ⟨hw.wire, hw.le, hw.win, fun _ => hwp, fun _ => hwp, hw.eosv,
-      by intro hx; rcases hx with hx | hx <;> exact absurd hx (by simp), fun _ => hw.done (Or.inl hst)⟩
+  · next hst => exact RW_nextRequest k hst
   · exact RW_rel.refl k
 
 theorem RW_setFault (k : Conn) (w : String) : RW k [.fault w] (k.setFault w).1 :=
-  RW_of_rkeeps ⟨rfl, rfl, rfl, rfl, rfl, rfl⟩ rfl (Or.inl rfl)
+  RW_of_rkeeps ⟨rfl, rfl, rfl, rfl, rfl, rfl, rfl⟩ rfl (Or.inl rfl)
 
 theorem updateEli_rkeeps (g : Guards) (k : Conn) : RKeeps k (updateEli g k) ∧ (updateEli g k).st = k.st := by
-  unfold updateEli; split <;> exact ⟨⟨rfl, rfl, rfl, rfl, rfl, rfl⟩, rfl⟩
+  unfold updateEli; split <;> exact ⟨⟨rfl, rfl, rfl, rfl, rfl, rfl, rfl⟩, rfl⟩
 
 theorem epollUpdate_rkeeps (k : Conn) : RKeeps k (epollUpdate k) ∧ (epollUpdate k).st = k.st := by
-  unfold epollUpdate; simp only []; split <;> split <;> exact ⟨⟨rfl, rfl, rfl, rfl, rfl, rfl⟩, rfl⟩
+  unfold epollUpdate; simp only []; split <;> split <;> exact ⟨⟨rfl, rfl, rfl, rfl, rfl, rfl, rfl⟩, rfl⟩
 
 theorem RW_handleIdle (g : Guards) (ep : Bool) : Sat RW (handleIdle g ep) := by
   apply sat_handleIdle RW_rel
@@ -1220,213 +1257,259 @@ theorem RW_handleRead (g : Guards) : Sat RW (handleRead g) := by
   split
   · exact RW_rel.refl k
   · split
-    · exact RW_of_rkeeps ⟨rfl, rfl, rfl, rfl, rfl, rfl⟩ rfl (Or.inl rfl)
-    · exact RW_of_rkeeps ⟨rfl, rfl, rfl, rfl, rfl, rfl⟩ rfl (Or.inl rfl)
+    · exact RW_of_rkeeps ⟨rfl, rfl, rfl, rfl, rfl, rfl, rfl⟩ rfl (Or.inl rfl)
+    · exact RW_of_rkeeps ⟨rfl, rfl, rfl, rfl, rfl, rfl, rfl⟩ rfl (Or.inl rfl)
 
-theorem RInv_init (p : Plan) : RInv { plan := p } [] :=
+theorem RInv_init (p : Plan) (l : List Plan) : RInv { plan := p, later := l } [] :=
   ⟨rfl, Nat.zero_le _, Nat.zero_le _, fun _ => rfl, fun _ => rfl, by simp, by simp, by simp⟩
 
 theorem run_reply_inv (g : Guards) (ops : List Op) (d : Daemon) (c : Nat) (h0 : RInv (d.conn c) []) :
     RInv ((run g d ops).1.conn c) (wireBytes (proj c (run g d ops).2)) := by
   have h := Lift_run RW_rel RW_flag g (RW_handleRead g) (RW_handleWrite g) (fun ep => RW_handleIdle g ep)
-    (fun k syms => RW_of_rkeeps ⟨rfl, rfl, rfl, rfl, rfl, rfl⟩ rfl (Or.inl rfl)) ops d c [] h0
+    (fun k syms => RW_of_rkeeps ⟨rfl, rfl, rfl, rfl, rfl, rfl, rfl⟩ rfl (Or.inl rfl)) ops d c [] h0
   simpa using h
 
-theorem run_reply (g : Guards) (ops : List Op) (m : Mode) (plans : Nat → Plan) (c : Nat) :
-    let r := run g (Daemon.init m plans) ops
+/-- the requests of the connection that have been served completely -/
+def Conn.served (k : Conn) : List Plan := if k.st = .finished then k.done ++ [k.plan] else k.done
+
+theorem run_reply (g : Guards) (ops : List Op) (m : Mode) (plans : Nat → Plan) (later : Nat → List Plan) (c : Nat) :
+    let r := run g (Daemon.init m plans later) ops
     let k := r.1.conn c
-    wireBytes (proj c r.2) ++ k.wpend = patRange k.plan.rid 0 k.rwp ∧ k.rwp ≤ k.plan.size ∧
-    (k.st = .finished → wireBytes (proj c r.2) = patRange k.plan.rid 0 k.plan.size) := by
-  have h := run_reply_inv g ops (Daemon.init m plans) c (RInv_init (plans c))
+    wireBytes (proj c r.2) ++ k.wpend = bodies k.done ++ patRange k.plan.rid 0 k.rwp ∧ k.rwp ≤ k.plan.size ∧
+    (k.st = .finished → wireBytes (proj c r.2) = bodies (k.done ++ [k.plan])) := by
+  have h := run_reply_inv g ops (Daemon.init m plans later) c (RInv_init (plans c) (later c))
   refine ⟨h.wire, h.le, fun hf => ?_⟩
   have hwp := h.ready (by rw [hf]; simp)
   have := h.wire
   rw [hwp, List.append_nil, h.done (Or.inr hf)] at this
-  exact this
+  rw [this, bodies_append]
+  simp [bodies]
 
-/-! ### Content-Length uploads: how much has been consumed -/
+/-! ### Content-Length uploads: how much has been consumed, over the whole pipeline -/
 
 def St.pre : St → Bool
   | .recvHead | .hdrProcessed | .bodyRecv => true
   | _ => false
 
-structure CInv (n : Nat) (k : Conn) (u : List UInt8) : Prop where
-  head : k.st = .recvHead → u = []
-  body : (k.st = .hdrProcessed ∨ k.st = .bodyRecv) → u.length + k.remaining = n
-  late : k.st.pre = false → u.length = n
+/-- declared body length of a request (0 for a chunked one: not known from the head) -/
+def Plan.clen (p : Plan) : Nat := match p.body with | .cl n => n | _ => 0
 
-def CW (n : Nat) (k : Conn) (evs : List CEv) (k' : Conn) : Prop :=
-  k.plan.body = .cl n → k'.plan = k.plan ∧ ∀ u, CInv n k u → CInv n k' (u ++ upBytes evs)
+def clSum : List Plan → Nat
+  | [] => 0
+  | p :: r => p.clen + clSum r
 
-theorem CW_rel (n : Nat) : TurnRel (CW n) where
-  refl := fun k _ => ⟨rfl, fun u h => by simpa using h⟩
+theorem clSum_append (a b : List Plan) : clSum (a ++ b) = clSum a + clSum b := by
+  induction a with
+  | nil => simp [clSum]
+  | cons p r ih => simp [clSum, ih, Nat.add_assoc]
+
+/-- no request of the connection uses a chunked upload -/
+def NoChunk (k : Conn) : Prop := ∀ p ∈ k.script, p.body ≠ .chunked
+
+/-- `u` = all upload bytes the handler has consumed on this connection -/
+structure CInv (k : Conn) (u : List UInt8) : Prop where
+  head : k.st = .recvHead → u.length = clSum k.done
+  hdr : k.st = .hdrProcessed → u.length = clSum k.done ∧ k.remaining = k.plan.clen
+  body : k.st = .bodyRecv → u.length + k.remaining = clSum k.done + k.plan.clen
+  late : k.st.pre = false → u.length = clSum k.done + k.plan.clen
+
+def CW (k : Conn) (evs : List CEv) (k' : Conn) : Prop :=
+  k'.script = k.script ∧ (NoChunk k → ∀ u, CInv k u → CInv k' (u ++ upBytes evs))
+
+theorem CW_rel : TurnRel CW where
+  refl := fun k => ⟨rfl, fun _ u h => by simpa using h⟩
   trans := by
-    intro k e1 k1 e2 k2 h1 h2 hp
-    have a := h1 hp
-    have b := h2 (by rw [a.1]; exact hp)
-    refine ⟨b.1.trans a.1, fun u hu => ?_⟩
-    have := b.2 _ (a.2 u hu)
+    intro k e1 k1 e2 k2 h1 h2
+    refine ⟨h2.1.trans h1.1, fun hn u hu => ?_⟩
+    have hn1 : NoChunk k1 := by unfold NoChunk; rw [h1.1]; exact hn
+    have := h2.2 hn1 _ (h1.2 hn u hu)
     rw [upBytes_append]; simpa [List.append_assoc] using this
 
-theorem CW_of_keeps {n : Nat} {k k' : Conn} {evs} (h : Keeps k k') (he : upBytes evs = []) : CW n k evs k' := by
-  intro _
-  refine ⟨h.plan, fun u hu => ?_⟩
+theorem script_of_eq {k k' : Conn} (h1 : k'.plan = k.plan) (h2 : k'.later = k.later) (h3 : k'.done = k.done) :
+    k'.script = k.script := by unfold Conn.script; rw [h1, h2, h3]
+
+/-- no upload bytes in the events; state, `remaining`, plan and `done` kept -/
+theorem CI_same {k k' : Conn} {evs} {u} (hs : k'.st = k.st) (hr : k'.remaining = k.remaining) (hp : k'.plan = k.plan)
+    (hd : k'.done = k.done) (he : upBytes evs = []) (hu : CInv k u) : CInv k' (u ++ upBytes evs) := by
   rw [he, List.append_nil]
-  exact ⟨by rw [h.st]; exact hu.head, by rw [h.st, h.remaining]; exact hu.body, by rw [h.st]; exact hu.late⟩
+  exact ⟨by rw [hs, hd]; exact hu.head, by rw [hs, hd, hr, hp]; exact hu.hdr, by rw [hs, hd, hr, hp]; exact hu.body,
+    by rw [hs, hd, hp]; exact hu.late⟩
+
+theorem CW_of_keeps {k k' : Conn} {evs} (h : Keeps k k') (he : upBytes evs = []) : CW k evs k' :=
+  ⟨script_of_eq h.plan h.later h.done, fun _ _ hu => CI_same h.st h.remaining h.plan h.done he hu⟩
 
 /-- no upload bytes in the events, and the state moves between states after the body -/
-theorem CW_of_late {n : Nat} {k k' : Conn} {evs} (hp : k'.plan = k.plan) (he : upBytes evs = [])
-    (h1 : k.st.pre = false) (h2 : k'.st.pre = false) : CW n k evs k' := by
-  intro _
-  refine ⟨hp, fun u hu => ?_⟩
+theorem CI_late {k k' : Conn} {evs} {u} (hp : k'.plan = k.plan) (hd : k'.done = k.done) (he : upBytes evs = [])
+    (h1 : k.st.pre = false) (h2 : k'.st.pre = false) (hu : CInv k u) : CInv k' (u ++ upBytes evs) := by
   rw [he, List.append_nil]
-  refine ⟨?_, ?_, fun _ => hu.late h1⟩
+  refine ⟨?_, ?_, ?_, fun _ => by rw [hd, hp]; exact hu.late h1⟩
   · intro hx; rw [hx] at h2; exact absurd h2 (by simp [St.pre])
-  · intro hx; rcases hx with hx | hx <;> rw [hx] at h2 <;> exact absurd h2 (by simp [St.pre])
+  · intro hx; rw [hx] at h2; exact absurd h2 (by simp [St.pre])
+  · intro hx; rw [hx] at h2; exact absurd h2 (by simp [St.pre])
 
-theorem CW_flag (n : Nat) : FlagOK (CW n) := fun _ _ _ hk h1 _ => CW_of_keeps hk h1
+theorem CW_of_late {k k' : Conn} {evs} (hs : k'.script = k.script) (hp : k'.plan = k.plan) (hd : k'.done = k.done)
+    (he : upBytes evs = []) (h1 : k.st.pre = false) (h2 : k'.st.pre = false) : CW k evs k' :=
+  ⟨hs, fun _ _ hu => CI_late hp hd he h1 h2 hu⟩
 
-theorem CW_procBodyCL (g : Guards) (n : Nat) (k : Conn) (hst : k.st = .bodyRecv) : CW n k (procBodyCL g k).2 (procBodyCL g k).1 := by
-  intro hp
+theorem CW_flag : FlagOK CW := fun _ _ _ hk h1 _ => CW_of_keeps hk h1
+
+theorem CI_procBodyCL (g : Guards) (k : Conn) (hst : k.st = .bodyRecv) (u : List UInt8) (hinv : CInv k u) :
+    CInv (procBodyCL g k).1 (u ++ upBytes (procBodyCL g k).2) ∧ (procBodyCL g k).1.st = .bodyRecv := by
   simp only [procBodyCL]
   split
-  · exact ⟨rfl, fun u hu => by simpa using hu⟩
+  · exact ⟨by simpa using hinv, hst⟩
   · have sp := callUpload_spec g k ((leadBytes k.rbuf).take (min k.remaining (leadBytes k.rbuf).length))
     generalize callUpload g k ((leadBytes k.rbuf).take (min k.remaining (leadBytes k.rbuf).length)) = r at sp
     obtain ⟨hk, hu, _, hle⟩ := sp
-    refine ⟨hk.plan, fun u hinv => ?_⟩
     have hle2 : r.2.2 ≤ min k.remaining (leadBytes k.rbuf).length := by simpa using hle
     have hlen : (((leadBytes k.rbuf).take (min k.remaining (leadBytes k.rbuf).length)).take r.2.2).length = r.2.2 := by
       rw [List.length_take, List.length_take]; omega
-    have hb := hinv.body (Or.inr hst)
-    refine ⟨?_, ?_, ?_⟩
-    · intro hx; have : r.1.st = .recvHead := hx; rw [hk.st, hst] at this; exact absurd this (by simp)
+    have hb := hinv.body hst
+    have hst' : r.1.st = .bodyRecv := by rw [hk.st]; exact hst
+    refine ⟨⟨?_, ?_, ?_, ?_⟩, hst'⟩
+    · intro hx; have : r.1.st = .recvHead := hx; rw [hst'] at this; exact absurd this (by simp)
+    · intro hx; have : r.1.st = .hdrProcessed := hx; rw [hst'] at this; exact absurd this (by simp)
     · intro _
-      show (u ++ upBytes r.2.1).length + (r.1.remaining - r.2.2) = n
-      rw [hu, List.length_append, hlen, hk.remaining]
+      show (u ++ upBytes r.2.1).length + (r.1.remaining - r.2.2) = clSum r.1.done + r.1.plan.clen
+      rw [hu, List.length_append, hlen, hk.remaining, hk.done, hk.plan]
       have : r.2.2 ≤ k.remaining := Nat.le_trans hle2 (Nat.min_le_left _ _)
       omega
-    · intro hx; have : r.1.st.pre = false := hx; rw [hk.st, hst] at this; exact absurd this (by simp [St.pre])
+    · intro hx; have : r.1.st.pre = false := hx; rw [hst'] at this; exact absurd this (by simp [St.pre])
 
 theorem readyChunked_late (g : Guards) (k : Conn) (h : k.st.pre = false) :
-    (readyChunked g k).1.st.pre = false ∧ (readyChunked g k).1.plan = k.plan := by
+    (readyChunked g k).1.st.pre = false ∧ (readyChunked g k).1.plan = k.plan ∧ (readyChunked g k).1.done = k.done := by
   unfold readyChunked
   split
-  · exact ⟨rfl, rfl⟩
+  · exact ⟨rfl, rfl, rfl⟩
   · have sp := callReader_spec g (2 ^ 24 - 1) k
     simp only []
     split
-    · exact ⟨rfl, sp.1.plan⟩
-    · exact ⟨by rw [sp.1.st]; exact h, sp.1.plan⟩
-    · exact ⟨rfl, sp.1.plan⟩
+    · exact ⟨rfl, sp.1.plan, sp.1.done⟩
+    · exact ⟨by rw [sp.1.st]; exact h, sp.1.plan, sp.1.done⟩
+    · exact ⟨rfl, sp.1.plan, sp.1.done⟩
 
 theorem tryReadyNormal_late (g : Guards) (k : Conn) (h : k.st.pre = false) :
-    (tryReadyNormal g k).1.st.pre = false ∧ (tryReadyNormal g k).1.plan = k.plan := by
+    (tryReadyNormal g k).1.st.pre = false ∧ (tryReadyNormal g k).1.plan = k.plan ∧ (tryReadyNormal g k).1.done = k.done := by
   unfold tryReadyNormal
   split
-  · exact ⟨h, rfl⟩
+  · exact ⟨h, rfl, rfl⟩
   · split
-    · exact ⟨h, rfl⟩
+    · exact ⟨h, rfl, rfl⟩
     · have sp := callReader_spec g (min 1024 (k.plan.size - k.rwp)) k
       simp only []
       split
-      · exact ⟨by show (callReader g k (min 1024 (k.plan.size - k.rwp))).1.st.pre = false; rw [sp.1.st]; exact h, sp.1.plan⟩
-      · exact ⟨rfl, sp.1.plan⟩
-      · exact ⟨by show (callReader g k (min 1024 (k.plan.size - k.rwp))).1.st.pre = false; rw [sp.1.st]; exact h, sp.1.plan⟩
+      · exact ⟨by show (callReader g k (min 1024 (k.plan.size - k.rwp))).1.st.pre = false; rw [sp.1.st]; exact h, sp.1.plan, sp.1.done⟩
+      · exact ⟨rfl, sp.1.plan, sp.1.done⟩
+      · exact ⟨by show (callReader g k (min 1024 (k.plan.size - k.rwp))).1.st.pre = false; rw [sp.1.st]; exact h, sp.1.plan, sp.1.done⟩
 
-theorem CW_idleStep (g : Guards) (n : Nat) (k : Conn) : CW n k (idleStep g k).2.1 (idleStep g k).1 := by
+theorem noBody_clen {p : Plan} (h : p.noBody = true) : p.clen = 0 := by
+  unfold Plan.noBody at h; unfold Plan.clen
+  cases hb : p.body with
+  | none => rfl
+  | cl n => rw [hb] at h; simpa using h
+  | chunked => rw [hb] at h
+
+theorem CI_nextRequest (k : Conn) (hst : k.st = .replySent) (u : List UInt8) (hu : CInv k u) :
+    CInv (nextRequest k).1 (u ++ upBytes (nextRequest k).2.1) := by
+  have hl := hu.late (by rw [hst]; rfl)
+  unfold nextRequest
+  split
+  · simp only [upBytes, List.append_nil]
+    exact ⟨by simp, by simp, by simp, fun _ => hl⟩
+  · simp only [upBytes, List.append_nil]
+    refine ⟨fun _ => ?_, by simp, by simp, by simp [St.pre]⟩
+    show u.length = clSum (k.done ++ [k.plan])
+    rw [clSum_append, hl]; simp [clSum]
+
+theorem CW_idleStep (g : Guards) (hg : g.shortcut = true) (k : Conn) : CW k (idleStep g k).2.1 (idleStep g k).1 := by
+  refine ⟨(FrS_idleStep g hg k).1, fun hn u hu => ?_⟩
+  have hnc : k.plan.body ≠ .chunked := hn k.plan (plan_mem_script k)
   unfold idleStep
   split
   · next hst =>
     unfold stRecvHead; split
-    · intro hp
-      refine ⟨rfl, fun u hu => ?_⟩
-      have hu0 := hu.head hst
+    · have hu0 := hu.head hst
       simp only [upBytes_nil, List.append_nil]
-      refine ⟨by simp, fun _ => ?_, by simp [St.pre]⟩
-      show u.length + (match k.plan.body with | .cl n => n | _ => 0) = n
-      rw [hp, hu0]; simp
-    · exact (CW_rel n).refl k
+      exact ⟨by simp, fun _ => ⟨hu0, rfl⟩, by simp, by simp [St.pre]⟩
+    · simpa using hu
   · next hst =>
     unfold stHdrProcessed; simp only []
     have sp := callFirst_spec g k
+    have hh := hu.hdr hst
     split
-    · exact CW_of_keeps sp.1 sp.2.1
-    · intro hp
-      refine ⟨sp.1.plan, fun u hu => ?_⟩
-      have hb := hu.body (Or.inl hst)
-      rw [sp.2.1, List.append_nil]
-      have hnb : k.plan.noBody = (n == 0) := by unfold Plan.noBody; rw [hp]
-      by_cases hn : n = 0
-      · have : k.plan.noBody = true := by rw [hnb]; simp [hn]
-        simp only [this, if_true]
-        exact ⟨by simp, by simp, fun _ => by omega⟩
-      · have : k.plan.noBody = false := by rw [hnb]; simp [hn]
-        simp only [this]
-        refine ⟨by simp, fun _ => ?_, by simp [St.pre]⟩
-        show u.length + (callFirst g k).1.remaining = n
-        rw [sp.1.remaining]; exact hb
+    · exact CI_same (k := k) sp.1.st sp.1.remaining sp.1.plan sp.1.done sp.2.1 hu
+    · rw [sp.2.1, List.append_nil]
+      by_cases hnb : k.plan.noBody = true
+      · simp only [hnb, if_true]
+        refine ⟨by simp, by simp, by simp, fun _ => ?_⟩
+        show u.length = clSum (callFirst g k).1.done + (callFirst g k).1.plan.clen
+        rw [sp.1.done, sp.1.plan, noBody_clen hnb]; exact hh.1
+      · simp only [hnb]
+        refine ⟨by simp, by simp, fun _ => ?_, by simp [St.pre]⟩
+        show u.length + (callFirst g k).1.remaining = clSum (callFirst g k).1.done + (callFirst g k).1.plan.clen
+        rw [sp.1.remaining, sp.1.done, sp.1.plan, hh.1, hh.2]
   · next hst =>
     unfold stBodyRecv; simp only []
-    intro hp
-    have hnc : k.chunkedUp = false := by unfold Conn.chunkedUp; rw [hp]; rfl
-    have h : CW n k (if k.rbuf.isEmpty = true then (k, []) else procBody g k).2
-                    (if k.rbuf.isEmpty = true then (k, []) else procBody g k).1 := by
+    have hncu : k.chunkedUp = false := by
+      unfold Conn.chunkedUp
+      cases hb : k.plan.body with
+      | chunked => exact absurd hb hnc
+      | _ => rfl
+    have h : CInv (if k.rbuf.isEmpty = true then (k, []) else procBody g k).1
+                  (u ++ upBytes (if k.rbuf.isEmpty = true then (k, []) else procBody g k).2) ∧
+             (if k.rbuf.isEmpty = true then (k, []) else procBody g k).1.st = .bodyRecv ∧
+             (if k.rbuf.isEmpty = true then (k, []) else procBody g k).1.plan = k.plan := by
       split
-      · exact (CW_rel n).refl k
-      · unfold procBody; simp only [hnc]; exact CW_procBodyCL g n k hst
-    have hst' : (if k.rbuf.isEmpty = true then (k, []) else procBody g k).1.st = .bodyRecv := by
-      split
-      · exact hst
-      · rw [(RKS_procBody g k).2.1]; exact hst
-    generalize (if k.rbuf.isEmpty = true then (k, []) else procBody g k) = r at h hst' ⊢
-    have a := h hp
-    have hnc' : r.1.chunkedUp = false := by unfold Conn.chunkedUp at *; rw [a.1]; exact hnc
+      · exact ⟨by simpa using hu, hst, rfl⟩
+      · have hp : (procBody g k).1.plan = k.plan := (RKS_procBody g k).1.plan
+        unfold procBody at hp ⊢; simp only [hncu] at hp ⊢
+        exact ⟨(CI_procBodyCL g k hst u hu).1, (CI_procBodyCL g k hst u hu).2, hp⟩
+    generalize (if k.rbuf.isEmpty = true then (k, []) else procBody g k) = r at h ⊢
+    obtain ⟨b, hst', hp'⟩ := h
+    have hnc' : r.1.chunkedUp = false := by unfold Conn.chunkedUp at *; rw [hp']; exact hncu
     split
     · next hd =>
-      refine ⟨a.1, fun u hu => ?_⟩
-      have b := a.2 u hu
-      have hb := b.body (Or.inr hst')
+      have hb := b.body hst'
       have hrem : r.1.remaining = 0 := by
         unfold Conn.bodyDone at hd; simp only [hnc'] at hd; simpa using hd
-      refine ⟨by simp, by simp, fun _ => ?_⟩
-      show (u ++ upBytes r.2).length = n
+      refine ⟨by simp, by simp, by simp, fun _ => ?_⟩
+      show (u ++ upBytes r.2).length = clSum r.1.done + r.1.plan.clen
       omega
-    · exact a
-  · next hst => exact CW_of_late rfl rfl (by rw [hst]; rfl) (by show (if k.chunkedUp = true then St.footersRecv else St.fullReq).pre = false; split <;> rfl)
+    · exact b
+  · next hst => exact CI_late (k := k) rfl rfl rfl (by rw [hst]; rfl) (by show (if k.chunkedUp = true then St.footersRecv else St.fullReq).pre = false; split <;> rfl) hu
   · next hst =>
     unfold stFootersRecv; split
-    · exact CW_of_late rfl rfl (by rw [hst]; rfl) rfl
-    · exact (CW_rel n).refl k
+    · exact CI_late (k := k) rfl rfl rfl (by rw [hst]; rfl) rfl hu
+    · simpa using hu
   · next hst =>
     unfold stFullReq; simp only []
     have sp := callFinal_spec g k
     split
-    · exact CW_of_late sp.1.plan sp.2.1 (by rw [hst]; rfl) rfl
-    · exact CW_of_keeps sp.1 sp.2.1
-  · exact (CW_rel n).refl k
-  · next hst => exact CW_of_late rfl rfl (by rw [hst]; rfl) rfl
+    · exact CI_late (k := k) sp.1.plan sp.1.done sp.2.1 (by rw [hst]; rfl) rfl hu
+    · exact CI_same (k := k) sp.1.st sp.1.remaining sp.1.plan sp.1.done sp.2.1 hu
+  · simpa using hu
+  · next hst => exact CI_late (k := k) rfl rfl rfl (by rw [hst]; rfl) rfl hu
   · next hst =>
     have hl : k.st.pre = false := by rw [hst]; rfl
     unfold stBodyUnready; split
     · have sp := readyChunked_keeps g k
       have sl := readyChunked_late g k hl
-      exact CW_of_late sl.2 sp.2.2.2 hl sl.1
+      exact CI_late (k := k) sl.2.1 sl.2.2 sp.2.2.2 hl sl.1 hu
     · split
-      · exact CW_of_late rfl rfl hl rfl
+      · exact CI_late (k := k) rfl rfl rfl hl rfl hu
       · have sp := tryReadyNormal_keeps g k
         have sl := tryReadyNormal_late g k hl
         simp only []; split
-        · exact CW_of_late sl.2 sp.2.2.2 hl rfl
-        · exact CW_of_late sl.2 sp.2.2.2 hl sl.1
-  · exact (CW_rel n).refl k
-  · next hst => exact CW_of_late rfl rfl (by rw [hst]; rfl) rfl
-  · exact (CW_rel n).refl k
-  · next hst => exact CW_of_late rfl rfl (by rw [hst]; rfl) rfl
-  · exact (CW_rel n).refl k
+        · exact CI_late (k := k) sl.2.1 sl.2.2 sp.2.2.2 hl rfl hu
+        · exact CI_late (k := k) sl.2.1 sl.2.2 sp.2.2.2 hl sl.1 hu
+  · simpa using hu
+  · next hst => exact CI_late (k := k) rfl rfl rfl (by rw [hst]; rfl) rfl hu
+  · simpa using hu
+  · next hst => exact CI_nextRequest k hst u hu
+  · simpa using hu
 
 theorem writeBodyKnown_late (g : Guards) (k : Conn) (h : k.st.pre = false) :
-    (writeBodyKnown g k).1.st.pre = false ∧ (writeBodyKnown g k).1.plan = k.plan := by
+    (writeBodyKnown g k).1.st.pre = false ∧ (writeBodyKnown g k).1.plan = k.plan ∧ (writeBodyKnown g k).1.done = k.done := by
   unfold writeBodyKnown
   have sl := tryReadyNormal_late g k h
   split
@@ -1435,79 +1518,74 @@ theorem writeBodyKnown_late (g : Guards) (k : Conn) (h : k.st.pre = false) :
     · exact sl
     · split
       · exact sl
-      · refine ⟨?_, sl.2⟩
+      · refine ⟨?_, sl.2.1, sl.2.2⟩
         show (if (tryReadyNormal g k).1.rwp + ((tryReadyNormal g k).1.winStart + (tryReadyNormal g k).1.winSize - (tryReadyNormal g k).1.rwp)
                 = (tryReadyNormal g k).1.plan.size then St.replySent else (tryReadyNormal g k).1.st).pre = false
         split
         · rfl
         · exact sl.1
-  · exact ⟨rfl, rfl⟩
+  · exact ⟨rfl, rfl, rfl⟩
 
-theorem CW_handleWrite (g : Guards) (n : Nat) : Sat (CW n) (handleWrite g) := by
+theorem CW_handleWrite (g : Guards) (hg : g.shortcut = true) : Sat CW (handleWrite g) := by
   intro k
+  refine ⟨(Fr_handleWrite g hg k).1, fun _ u hu => ?_⟩
   unfold handleWrite
   split
-  · exact (CW_rel n).refl k
+  · simpa using hu
   · split
-    · next hst => exact CW_of_late rfl rfl (by rw [hst]; rfl) rfl
+    · next hst => exact CI_late (k := k) rfl rfl rfl (by rw [hst]; rfl) rfl hu
     · next hst =>
       split
-      · exact CW_of_late rfl rfl (by rw [hst]; rfl) rfl
+      · exact CI_late (k := k) rfl rfl rfl (by rw [hst]; rfl) rfl hu
       · have sp := writeBodyKnown_keeps g k
         have sl := writeBodyKnown_late g k (by rw [hst]; rfl)
-        exact CW_of_late sl.2 sp.2.2.2 (by rw [hst]; rfl) sl.1
-    · next hst => exact CW_of_late rfl rfl (by rw [hst]; rfl) rfl
-    · exact (CW_rel n).refl k
+        exact CI_late (k := k) sl.2.1 sl.2.2 sp.2.2.2 (by rw [hst]; rfl) sl.1 hu
+    · next hst => exact CI_late (k := k) rfl rfl rfl (by rw [hst]; rfl) rfl hu
+    · simpa using hu
 
-theorem CW_handleRead (g : Guards) (n : Nat) : Sat (CW n) (handleRead g) := by
+theorem CW_handleRead (g : Guards) : Sat CW (handleRead g) := by
   intro k
+  refine ⟨(Fr_handleRead g k).1, fun _ u hu => ?_⟩
   unfold handleRead
   split
-  · exact (CW_rel n).refl k
+  · simpa using hu
   · split
-    · exact CW_of_keeps ⟨rfl, rfl, rfl, rfl, rfl, rfl, rfl, rfl, rfl, rfl, rfl, rfl, rfl, rfl⟩ rfl
-    · intro _
-      exact ⟨rfl, fun u hu => by
-        simp only [upBytes, List.append_nil]
-        exact ⟨hu.head, hu.body, hu.late⟩⟩
+    · exact CI_same (k := k) rfl rfl rfl rfl rfl hu
+    · exact CI_same (k := k) rfl rfl rfl rfl rfl hu
 
-theorem CW_handleIdle (g : Guards) (n : Nat) (ep : Bool) : Sat (CW n) (handleIdle g ep) := by
-  apply sat_handleIdle (CW_rel n)
-  · refine sat_idleLoop (CW_rel n) ?_ (fun k _ => CW_idleStep g n k) _
+theorem CW_handleIdle (g : Guards) (hg : g.shortcut = true) (ep : Bool) : Sat CW (handleIdle g ep) := by
+  apply sat_handleIdle CW_rel
+  · refine sat_idleLoop CW_rel ?_ (fun k _ => CW_idleStep g hg k) _
     intro k w
-    exact CW_of_keeps ⟨rfl, rfl, rfl, rfl, rfl, rfl, rfl, rfl, rfl, rfl, rfl, rfl, rfl, rfl⟩ rfl
+    exact CW_of_keeps ⟨rfl, rfl, rfl, rfl, rfl, rfl, rfl, rfl, rfl, rfl, rfl, rfl, rfl, rfl, rfl, rfl⟩ rfl
   · intro k
     have h : Keeps k (updateEli g k) := by
-      unfold updateEli; split <;> exact ⟨rfl, rfl, rfl, rfl, rfl, rfl, rfl, rfl, rfl, rfl, rfl, rfl, rfl, rfl⟩
+      unfold updateEli; split <;> exact ⟨rfl, rfl, rfl, rfl, rfl, rfl, rfl, rfl, rfl, rfl, rfl, rfl, rfl, rfl, rfl, rfl⟩
     exact CW_of_keeps h rfl
   · intro k
     have h : Keeps k (epollUpdate k) := by
-      unfold epollUpdate; simp only []; split <;> split <;> exact ⟨rfl, rfl, rfl, rfl, rfl, rfl, rfl, rfl, rfl, rfl, rfl, rfl, rfl, rfl⟩
+      unfold epollUpdate; simp only []; split <;> split <;> exact ⟨rfl, rfl, rfl, rfl, rfl, rfl, rfl, rfl, rfl, rfl, rfl, rfl, rfl, rfl, rfl, rfl⟩
     exact CW_of_keeps h rfl
 
-/-- a finished Content-Length request has delivered exactly `n` bytes to the handler -/
-theorem run_count (g : Guards) (ops : List Op) (m : Mode) (plans : Nat → Plan) (c : Nat) (n : Nat)
-    (hp : (plans c).body = .cl n) :
-    ((run g (Daemon.init m plans) ops).1.conn c).plan = plans c ∧
-    CInv n ((run g (Daemon.init m plans) ops).1.conn c) (upBytes (proj c (run g (Daemon.init m plans) ops).2)) := by
-  have h := Lift_run (CW_rel n) (CW_flag n) g (CW_handleRead g n) (CW_handleWrite g n) (fun ep => CW_handleIdle g n ep)
-    (fun k syms => by
-      intro _
-      exact ⟨rfl, fun u hu => by
-        simp only [upBytes_nil, List.append_nil]
-        exact ⟨hu.head, hu.body, hu.late⟩⟩) ops (Daemon.init m plans) c
-  have a := h (by simpa [Daemon.init] using hp)
-  refine ⟨a.1, ?_⟩
-  have := a.2 [] ⟨fun _ => rfl, by simp [Daemon.init], by simp [Daemon.init, St.pre]⟩
-  simpa using this
+/-- the scripts of a connection never change; the requests are served in script order -/
+theorem run_script (g : Guards) (hg : g.shortcut = true) (ops : List Op) (m : Mode) (plans : Nat → Plan)
+    (later : Nat → List Plan) (c : Nat) :
+    ((run g (Daemon.init m plans later) ops).1.conn c).script = plans c :: later c := by
+  have h := Lift_run (R := fun k _ k' => k'.script = k.script) ⟨fun _ => rfl, fun _ _ _ _ _ h1 h2 => h2.trans h1⟩
+    (fun _ _ _ hk _ _ => script_of_eq hk.plan hk.later hk.done) g (fun k => (Fr_handleRead g k).1) (fun k => (Fr_handleWrite g hg k).1)
+    (fun ep k => (Fr_handleIdle g hg ep k).1) (fun _ _ => rfl) ops (Daemon.init m plans later) c
+  simpa [Daemon.init, Conn.script] using h
 
-/-- the plan of a connection never changes -/
-theorem run_plan (g : Guards) (hg : g.shortcut = true) (ops : List Op) (m : Mode) (plans : Nat → Plan) (c : Nat) :
-    ((run g (Daemon.init m plans) ops).1.conn c).plan = plans c := by
-  have h := Lift_run (R := fun k _ k' => k'.plan = k.plan) ⟨fun _ => rfl, fun _ _ _ _ _ h1 h2 => h2.trans h1⟩
-    (fun _ _ _ hk _ _ => hk.plan) g (fun k => (Fr_handleRead g k).1) (fun k => (Fr_handleWrite g hg k).1)
-    (fun ep k => (Fr_handleIdle g hg ep k).1) (fun _ _ => rfl) ops (Daemon.init m plans) c
-  simpa [Daemon.init] using h
+/-- a pipeline of Content-Length (or body-less) requests: the handler has consumed exactly the declared
+    lengths of the requests served so far, plus what the invariant says about the current one -/
+theorem run_count (g : Guards) (hg : g.shortcut = true) (ops : List Op) (m : Mode) (plans : Nat → Plan)
+    (later : Nat → List Plan) (c : Nat) (hp : ∀ p ∈ plans c :: later c, p.body ≠ .chunked) :
+    CInv ((run g (Daemon.init m plans later) ops).1.conn c) (upBytes (proj c (run g (Daemon.init m plans later) ops).2)) := by
+  have h := Lift_run CW_rel CW_flag g (CW_handleRead g) (CW_handleWrite g hg) (fun ep => CW_handleIdle g hg ep)
+    (fun k syms => ⟨rfl, fun _ u hu => CI_same (k := k) rfl rfl rfl rfl rfl hu⟩) ops (Daemon.init m plans later) c
+  have hn : NoChunk ((Daemon.init m plans later).conn c) := by simpa [NoChunk, Daemon.init, Conn.script] using hp
+  have := h.2 hn [] ⟨fun _ => rfl, by simp [Daemon.init], by simp [Daemon.init], by simp [Daemon.init, St.pre]⟩
+  simpa using this
 
 theorem erase_fields {p q : Plan} (h : p.erase = q.erase) :
     p.body = q.body ∧ p.rkind = q.rkind ∧ p.size = q.size ∧ p.cbmax = q.cbmax ∧ p.rid = q.rid := by
@@ -1519,31 +1597,61 @@ theorem prefix_eq_of_length {α} {a b l1 l2 : List α} (h : a ++ l1 = b ++ l2) (
   have := List.append_inj h hl
   exact this.1
 
-/-- STUTTER EQUIVALENCE (see Mhd.Props.C11) -/
-theorem stutter (g : Guards) (hg : g.Sound) (m₁ m₂ : Mode) (pl₁ pl₂ : Nat → Plan) (ops₁ ops₂ : List Op) (c : Nat)
-    (hplan : (pl₁ c).erase = (pl₂ c).erase)
-    (hsent : dataOf ((run g (Daemon.init m₁ pl₁) ops₁).1.conn c).sent = dataOf ((run g (Daemon.init m₂ pl₂) ops₂).1.conn c).sent)
-    (hf₁ : ((run g (Daemon.init m₁ pl₁) ops₁).1.conn c).st = .finished)
-    (hf₂ : ((run g (Daemon.init m₂ pl₂) ops₂).1.conn c).st = .finished) :
-    wireBytes (proj c (run g (Daemon.init m₁ pl₁) ops₁).2) = wireBytes (proj c (run g (Daemon.init m₂ pl₂) ops₂).2) ∧
-    (∀ n, (pl₁ c).body = .cl n →
-      upBytes (proj c (run g (Daemon.init m₁ pl₁) ops₁).2) = upBytes (proj c (run g (Daemon.init m₂ pl₂) ops₂).2)) := by
+/-- `bodies` and `clSum` only look at fields that `erase` keeps -/
+theorem bodies_erase : ∀ {a b : List Plan}, a.map Plan.erase = b.map Plan.erase → bodies a = bodies b ∧ clSum a = clSum b ∧
+    ((∀ p ∈ a, p.body ≠ .chunked) → ∀ p ∈ b, p.body ≠ .chunked)
+  | [], [], _ => ⟨rfl, rfl, fun h => h⟩
+  | [], _ :: _, h => by simp at h
+  | _ :: _, [], h => by simp at h
+  | p :: a, q :: b, h => by
+    simp only [List.map_cons, List.cons.injEq] at h
+    have ef := erase_fields h.1
+    have ih := bodies_erase h.2
+    refine ⟨by simp [bodies, ef.2.2.1, ef.2.2.2.2, ih.1], by simp [clSum, Plan.clen, ef.1, ih.2.1], ?_⟩
+    intro hh x hx
+    rcases List.mem_cons.1 hx with e | e
+    · subst e; rw [← ef.1]; exact hh p List.mem_cons_self
+    · exact ih.2.2 (fun y hy => hh y (List.mem_cons_of_mem _ hy)) x e
+
+/-- at the end of the pipeline everything has been served -/
+theorem finished_script (g : Guards) (hg : g.shortcut = true) (ops : List Op) (m : Mode) (plans : Nat → Plan)
+    (later : Nat → List Plan) (c : Nat)
+    (hl : ((run g (Daemon.init m plans later) ops).1.conn c).later = []) :
+    ((run g (Daemon.init m plans later) ops).1.conn c).done ++ [((run g (Daemon.init m plans later) ops).1.conn c).plan]
+      = plans c :: later c := by
+  have := run_script g hg ops m plans later c
+  unfold Conn.script at this
+  rw [hl] at this; exact this
+
+/-- STUTTER EQUIVALENCE over a keep-alive pipeline (see Mhd.Props.C11) -/
+theorem stutter (g : Guards) (hg : g.Sound) (m₁ m₂ : Mode) (pl₁ pl₂ : Nat → Plan) (la₁ la₂ : Nat → List Plan)
+    (ops₁ ops₂ : List Op) (c : Nat)
+    (hplan : (pl₁ c :: la₁ c).map Plan.erase = (pl₂ c :: la₂ c).map Plan.erase)
+    (hsent : dataOf ((run g (Daemon.init m₁ pl₁ la₁) ops₁).1.conn c).sent = dataOf ((run g (Daemon.init m₂ pl₂ la₂) ops₂).1.conn c).sent)
+    (hf₁ : ((run g (Daemon.init m₁ pl₁ la₁) ops₁).1.conn c).st = .finished ∧ ((run g (Daemon.init m₁ pl₁ la₁) ops₁).1.conn c).later = [])
+    (hf₂ : ((run g (Daemon.init m₂ pl₂ la₂) ops₂).1.conn c).st = .finished ∧ ((run g (Daemon.init m₂ pl₂ la₂) ops₂).1.conn c).later = []) :
+    wireBytes (proj c (run g (Daemon.init m₁ pl₁ la₁) ops₁).2) = wireBytes (proj c (run g (Daemon.init m₂ pl₂ la₂) ops₂).2) ∧
+    ((∀ p ∈ pl₁ c :: la₁ c, p.body ≠ .chunked) →
+      upBytes (proj c (run g (Daemon.init m₁ pl₁ la₁) ops₁).2) = upBytes (proj c (run g (Daemon.init m₂ pl₂ la₂) ops₂).2)) := by
   have hs := hg.2.2.2.2.2.2.2
-  have ef := erase_fields hplan
-  have p1 := run_plan g hs ops₁ m₁ pl₁ c
-  have p2 := run_plan g hs ops₂ m₂ pl₂ c
+  have be := bodies_erase hplan
+  have s1 := finished_script g hs ops₁ m₁ pl₁ la₁ c hf₁.2
+  have s2 := finished_script g hs ops₂ m₂ pl₂ la₂ c hf₂.2
   refine ⟨?_, ?_⟩
-  · have r1 := (run_reply g ops₁ m₁ pl₁ c).2.2 hf₁
-    have r2 := (run_reply g ops₂ m₂ pl₂ c).2.2 hf₂
-    rw [r1, r2, p1, p2, ef.2.2.1, ef.2.2.2.2]
-  · intro n hn
-    have hn2 : (pl₂ c).body = .cl n := by rw [← ef.1]; exact hn
-    have c1 := (run_count g ops₁ m₁ pl₁ c n hn).2.late (by rw [hf₁]; rfl)
-    have c2 := (run_count g ops₂ m₂ pl₂ c n hn2).2.late (by rw [hf₂]; rfl)
-    have u1 := run_upload g ops₁ (Daemon.init m₁ pl₁) c rfl
-    have u2 := run_upload g ops₂ (Daemon.init m₂ pl₂) c rfl
+  · have r1 := (run_reply g ops₁ m₁ pl₁ la₁ c).2.2 hf₁.1
+    have r2 := (run_reply g ops₂ m₂ pl₂ la₂ c).2.2 hf₂.1
+    rw [r1, r2, s1, s2]; exact be.1
+  · intro hn
+    have c1 := (run_count g hs ops₁ m₁ pl₁ la₁ c hn).late (by rw [hf₁.1]; rfl)
+    have c2 := (run_count g hs ops₂ m₂ pl₂ la₂ c (be.2.2 hn)).late (by rw [hf₂.1]; rfl)
+    have e1 : clSum ((run g (Daemon.init m₁ pl₁ la₁) ops₁).1.conn c).done + ((run g (Daemon.init m₁ pl₁ la₁) ops₁).1.conn c).plan.clen
+        = clSum (pl₁ c :: la₁ c) := by rw [← s1, clSum_append]; simp [clSum]
+    have e2 : clSum ((run g (Daemon.init m₂ pl₂ la₂) ops₂).1.conn c).done + ((run g (Daemon.init m₂ pl₂ la₂) ops₂).1.conn c).plan.clen
+        = clSum (pl₂ c :: la₂ c) := by rw [← s2, clSum_append]; simp [clSum]
+    have u1 := run_upload g ops₁ (Daemon.init m₁ pl₁ la₁) c rfl
+    have u2 := run_upload g ops₂ (Daemon.init m₂ pl₂ la₂) c rfl
     rw [hsent, ← u2] at u1
     simp only [List.append_assoc] at u1
-    exact prefix_eq_of_length u1 (c1.trans c2.symm)
+    exact prefix_eq_of_length u1 (by rw [c1, c2, e1, e2]; exact be.2.1)
 
 end Mhd.Susp
